@@ -130,11 +130,14 @@ var ubjKeys = [][]byte{{'i', 1, 'a'}, {'i', 0}, {'U', 2, 'b', 'b'}}
 
 // element types for typed containers and two payloads each ('[' and '{' recurse)
 var ubjTypes = []byte{'i', 'S', 'Z', 'T', 'U', 'd', '[', '{', 'C', 'H', 'I', 'F', 'l', 'L', 'D'}
+
+// the third payload of every type starts with the byte 0x4E ('N', the no-op marker): payloads of typed
+// containers carry no markers, so no payload byte may ever be taken for one
 var ubjPayload = map[byte][][]byte{
-	'i': {{1}, {0x80}}, 'S': {{'i', 1, 'a'}, {'U', 0}}, 'Z': {{}}, 'T': {{}}, 'F': {{}}, 'U': {{200}, {0}},
-	'd': {{0x3f, 0, 0, 0}, {0xff, 0xc0, 0, 0}}, 'C': {{'x'}, {']'}}, 'H': {{'i', 2, '1', '2'}, {'i', 0}},
-	'I': {{1, 0}, {0xff, 0xff}}, 'l': {{0, 1, 0, 0}, {0x80, 0, 0, 0}}, 'L': {{0, 0, 0, 1, 0, 0, 0, 0}, {0x80, 0, 0, 0, 0, 0, 0, 0}},
-	'D': {{0x3f, 0xe0, 0, 0, 0, 0, 0, 0}, {0, 0, 0, 0, 0, 0, 0, 1}},
+	'i': {{1}, {0x80}, {'N'}}, 'S': {{'i', 1, 'a'}, {'U', 0}, {'U', 1, 'N'}}, 'Z': {{}}, 'T': {{}}, 'F': {{}}, 'U': {{200}, {0}, {'N'}},
+	'd': {{0x3f, 0, 0, 0}, {0xff, 0xc0, 0, 0}, {'N', 0, 0, 0}}, 'C': {{'x'}, {']'}, {'N'}}, 'H': {{'i', 2, '1', '2'}, {'i', 0}, {'U', 1, '7'}},
+	'I': {{1, 0}, {0xff, 0xff}, {'N', ' '}}, 'l': {{0, 1, 0, 0}, {0x80, 0, 0, 0}, {'N', 0, 0, 1}}, 'L': {{0, 0, 0, 1, 0, 0, 0, 0}, {0x80, 0, 0, 0, 0, 0, 0, 0}, {'N', 0, 0, 0, 0, 0, 0, 2}},
+	'D': {{0x3f, 0xe0, 0, 0, 0, 0, 0, 0}, {0, 0, 0, 0, 0, 0, 0, 1}, {'N', 0, 0, 0, 0, 0, 0, 0}},
 }
 
 // UBJTree enumerates every UBJSON value with at most maxNodes nodes: plain, counted and typed
